@@ -203,4 +203,18 @@ CHECKS = {
         note="language c++ only (a C library needs no C API). A std::string returned by value has no plain C wrapper "
              "(documented) and is not driven from C.",
     ),
+    "C06": dict(
+        level="exploration",
+        technique="stateful property-based testing (Hypothesis RuleBasedStateMachine) of call histories against a "
+                  "reference model of handles and ownership, executed on AddressSanitizer/LeakSanitizer builds",
+        design_ref="DESIGN.md section 4, C06",
+        text="For generated class-bearing C++ libraries an interpreter driver (C and Fortran front ends) is built once "
+             "with ASan; a rule-based state machine draws histories over construct / method / use / copy handle / delete / "
+             "delete again / owned and borrowed results / plain calls; after every step the library's live-object count "
+             "and the whole call stream must equal the reference model, objects the caller still owns are released at the "
+             "end, and ASan/LSan must report nothing (use after free, double free, mismatched deallocator, leaked "
+             "temporaries). The C01/C02 call plans with strings and arrays of every generated length are re-run under ASan.",
+        note="Histories stay inside defined behaviour of the direct C++ API. The Python front end is not part of this "
+             "check. Upstream test programs are not used (not sanitizer-clean by themselves).",
+    ),
 }
